@@ -2005,8 +2005,9 @@ static void get_user_data (interactive_t* ip, io_event_t* evt) {
             char *nl, *str;
             char *p = ip->text + ip->text_start;
 
-            memcpy (p, buf, num_bytes);
-            ip->text_end = ip->text_start + num_bytes;
+            /* append after a partial line kept from earlier reads (it used to be overwritten) */
+            memcpy (ip->text + ip->text_end, buf, num_bytes);
+            ip->text_end += num_bytes;
             while ((nl = memchr (p, '\n', ip->text_end - ip->text_start)))
               {
                 ip->text_start = (nl + 1) - ip->text;
@@ -2030,6 +2031,15 @@ static void get_user_data (interactive_t* ip, io_event_t* evt) {
                     p = nl + 1;
                   }
               }
+            /* keep an unfinished line at the front of the buffer; a line that fills the buffer is discarded */
+            if (ip->text_start > 0)
+              {
+                memmove (ip->text, ip->text + ip->text_start, ip->text_end - ip->text_start);
+                ip->text_end -= ip->text_start;
+                ip->text_start = 0;
+              }
+            if (ip->text_end >= MAX_TEXT - 1)
+              ip->text_end = 0;
             break;
           }
 
